@@ -187,7 +187,6 @@ pub enum AnyStore {
 }
 
 /// run `$body` with `$s` bound to `&mut` the concrete store
-#[macro_export]
 macro_rules! with_store {
     ($st:expr, $s:ident => $body:expr) => {
         match $st {
@@ -196,6 +195,7 @@ macro_rules! with_store {
         }
     };
 }
+pub(crate) use with_store;
 
 pub struct SnapReg {
     pub meta: SnapshotMeta<NodeId, RaftNode>,
@@ -249,6 +249,14 @@ impl AnyStore {
                 s.install_snapshot(&r.meta, b).await.map_err(|e| e.to_string())
             })
         })
+    }
+    /// `get_current_snapshot()`: `none` or the meta of the stored snapshot
+    pub fn current_print(&mut self, rt: &tokio::runtime::Runtime) -> String {
+        let cur = rt.block_on(async { with_store!(self, s => s.get_current_snapshot().await) }).expect("get_current_snapshot");
+        match cur {
+            None => "none".into(),
+            Some(s) => format!("id={} la={} mem={}", s.meta.snapshot_id, olid(&s.meta.last_log_id), smem(&s.meta.last_membership)),
+        }
     }
     pub fn log_print(&mut self, rt: &tokio::runtime::Runtime) -> LogPrint {
         rt.block_on(async {
@@ -367,7 +375,7 @@ impl Gen {
             let id = mk_lid(term, 1 + term % 3, first + i);
             let payload = match rng.below(12) {
                 0 => EntryPayload::Blank,
-                1 => EntryPayload::Membership(mk_membership(rng.pick(&["1", "1.2", "1.2.3", "2.3"]))),
+                1 => EntryPayload::Membership(mk_membership(*rng.pick(&["1", "1.2", "1.2.3", "2.3"]))),
                 _ => EntryPayload::Normal(Self::command(rng)),
             };
             out.push(Entry { log_id: id, payload });
@@ -412,6 +420,7 @@ impl<'a> Run<'a> {
         self.ctx.directive(&format!("store {} {}", reg, st.kind()));
         self.ctx.count(&format!("store:{}", st.kind()));
         self.stores.insert(reg.to_string(), (st, path));
+        if self.ctx.rng.chance(1, 3) { self.cur(reg); }
     }
     fn close(&mut self, reg: &str) {
         if let Some((st, path)) = self.stores.remove(reg) {
@@ -454,6 +463,7 @@ impl<'a> Run<'a> {
         );
         self.ctx.count("snapshot:build");
         self.snaps.push(s);
+        if self.ctx.rng.chance(1, 2) { self.cur(reg); }
         k
     }
     fn install(&mut self, reg: &str, k: usize) {
@@ -465,6 +475,13 @@ impl<'a> Run<'a> {
         };
         self.ctx.case(&format!("install {} {}", reg, k), &res);
         self.ctx.count("snapshot:install");
+        if self.ctx.rng.chance(1, 2) { self.cur(reg); }
+    }
+    fn cur(&mut self, reg: &str) {
+        let rt = &self.rt;
+        let r = self.stores.get_mut(reg).unwrap().0.current_print(rt);
+        self.ctx.case(&format!("cur {}", reg), &r);
+        self.ctx.count("snapshot:get_current");
     }
     fn same(&mut self, a: &str, b: &str) {
         let rt = &self.rt;
@@ -528,7 +545,8 @@ fn scenario_sm(run: &mut Run, len: u64, all_snaps: bool) {
         let rc = run.ctx.rng.chance(1, 2);
         run.open("c", rc);
         if run.ctx.rng.chance(1, 3) {
-            let junk = Gen::log(&mut run.ctx.rng, 0, 1 + run.ctx.rng.below(4));
+            let nj = 1 + run.ctx.rng.below(4);
+            let junk = Gen::log(&mut run.ctx.rng, 0, nj);
             run.apply("c", &junk);
             run.ctx.count("install:onto_used_store");
         }
@@ -569,7 +587,10 @@ fn scenario_log(run: &mut Run, steps: u64, disciplined: bool) {
         match op {
             0 | 1 | 2 | 3 => {
                 let n = 1 + run.ctx.rng.below(4);
-                let start = if disciplined || run.ctx.rng.chance(3, 4) { next } else { run.ctx.rng.below(next + 3) };
+                // never at or below the purge marker (openraft's discipline, premise of the contract theorem);
+                // undisciplined runs may overwrite existing entries or leave a gap
+                let lo = purged.map(|p| p + 1).unwrap_or(0);
+                let start = if disciplined || run.ctx.rng.chance(3, 4) { next } else { lo + run.ctx.rng.below(next.saturating_sub(lo) + 3) };
                 if run.ctx.rng.chance(1, 5) { term += 1; }
                 let mut es = Gen::log(&mut run.ctx.rng, start, n);
                 for e in es.iter_mut() { e.log_id = mk_lid(term, 1, e.log_id.index); }
@@ -628,8 +649,8 @@ fn scenario_log(run: &mut Run, steps: u64, disciplined: bool) {
             _ => {
                 let lo = run.ctx.rng.below(next + 1);
                 let hi = lo + run.ctx.rng.below(5);
-                let st = run.st("a");
                 let via_reader = run.ctx.rng.chance(1, 2);
+                let st = run.st("a");
                 let es: Vec<Ent> = rt.block_on(async {
                     with_store!(st, s => {
                         if via_reader { let mut r = s.get_log_reader().await; r.try_get_log_entries(lo..hi).await } else { s.try_get_log_entries(lo..hi).await }
